@@ -1130,7 +1130,22 @@ func (in *Interp) evalCall(st *State, call *ast.CallExpr, stmt bool) *T {
 			variadicOK := true
 			for _, f := range fd.Type.Params.List {
 				if _, isEll := f.Type.(*ast.Ellipsis); isEll {
-					variadicOK = false
+					// the variadic tail becomes a slice literal of the remaining arguments (or the spread slice)
+					if len(f.Names) != 1 {
+						variadicOK = false
+						break
+					}
+					if i < len(args) && args[len(args)-1].Op == "un" && args[len(args)-1].Name == "..." && i == len(args)-1 {
+						bind[f.Names[0].Name] = args[i].Args[0]
+					} else {
+						lit := &T{Op: "lit", Name: "[]variadic"}
+						for _, a := range args[min(i, len(args)):] {
+							lit.Args = append(lit.Args, a)
+						}
+						bind[f.Names[0].Name] = lit
+					}
+					i = len(args)
+					continue
 				}
 				for _, n := range f.Names {
 					if i < len(args) {
